@@ -206,7 +206,7 @@ class OMapMixin:
                 ks.length().t == view.n.t,
                 z3.ForAll([i], z3.Implies(guard, z3.And(ks[SV(i, TInt)].t == k.t, ty.at(r, k).t == v.t)),
                           patterns=[ks[SV(i, TInt)].t] + self._src_patterns))
-            if self.proves(distinct):
+            if self.oracle(lambda: self.proves(distinct)):
                 # established here and now: later queries get the positional facts without the nested-quantifier hypothesis
                 self.st.pc.append(positional)
             else:
